@@ -19,6 +19,7 @@ pub open spec fn c07(b: bool) -> bool { b }
 pub open spec fn c09(b: bool) -> bool { b }
 pub open spec fn c10(b: bool) -> bool { b }
 pub open spec fn c16(b: bool) -> bool { b }
+pub open spec fn c19(b: bool) -> bool { b }
 /// auxiliary clause: supports a proof, is no property's own statement
 pub open spec fn aux(b: bool) -> bool { b }
 
